@@ -413,7 +413,7 @@ Definition col_sums (c : nat) (M : mat) : vec := map (fun j => sumq (col j M)) (
 Definition total (M : mat) : Q := sumq (row_sums M).
 Fixpoint mat_pow (n : nat) (A : mat) (k : nat) : mat :=
   match k with O => identity n | S k' => mat_mul n A (mat_pow n A k') end.
-Definition symmetric (n : nat) (A : mat) : Prop := forall i j, (i < n)%nat -> (j < n)%nat -> mget A i j == mget A j i.
+Definition msymmetric (n : nat) (A : mat) : Prop := forall i j, (i < n)%nat -> (j < n)%nat -> mget A i j == mget A j i.
 (** block matrix [[A, B]; [C, D]] (A and B have the same number of rows, C and D too) *)
 Definition block (A B C D : mat) : mat := map2 (@app Q) A B ++ map2 (@app Q) C D.
 
@@ -964,7 +964,7 @@ Proof.
   - intros j i Hj Hi. rewrite mget_transpose_n by (rewrite ?(wf_mat_length _ _ _ WI); auto).
     rewrite !mget_identity by auto. rewrite (Nat.eqb_sym i j). reflexivity.
 Qed.
-Lemma transpose_symmetric n A : wf_mat n n A -> symmetric n A -> transpose_n n A =m A.
+Lemma transpose_symmetric n A : wf_mat n n A -> msymmetric n A -> transpose_n n A =m A.
 Proof.
   intros WA HS. apply (meq_mget n n); auto.
   - apply transpose_n_wf. apply (wf_mat_length _ _ _ WA).
